@@ -251,6 +251,10 @@ def cases(shard, nshards, seed, tier):
                 yield {"family": "corpus-raw", "file": fn, "nucleic_acid_only": na_only}
 
 
+def clamp3(v):
+    return round(min(9999.999, max(-999.999, v)), 3)
+
+
 def _read(text, fmt, model):
     from rnapolis import parser
 
@@ -360,6 +364,20 @@ def run_case(case, rec):
                 _read(text, fmt, req)
             finally:
                 _cur["expect"] = None
+        if fmt == "pdb" and case["i"] % 4 == 1 and not six:
+            # the SAME path rewritten at once with other content of the SAME size (fixed-width records: only the
+            # coordinates and a residue number change), and read again
+            rows2 = [dict(r, x=round(-r["x"], 3) if -999.999 <= -r["x"] <= 9999.999 else r["x"], z=clamp3(r["z"] + 1.0)) for r in rows]
+            text2 = emit.emit_pdb(rows2, end_after_each_model=per_frame_end)
+            if len(text2) == len(text):
+                rec.count("note:same-path-same-size-rewrite")
+                desc2 = dict(desc, rewritten="same path, same size, other coordinates")
+                for req in reqs[:2]:
+                    _cur["expect"] = {"rows": rows2, "fmt": fmt, "model": req, "desc": desc2}
+                    try:
+                        _read(text2, fmt, req)
+                    finally:
+                        _cur["expect"] = None
         return
     if fam == "eighty-thousand-atoms":
         # a very large entry: 80 005 atoms on a lattice, and close pairs whose two atoms are far apart in the file
